@@ -360,10 +360,17 @@ impl Sync for CopiaSync {
             match op {
                 DeltaOp::Copy { offset, len } => {
                     basis.seek(SeekFrom::Start(*offset))?;
-                    let mut buffer = vec![0u8; *len as usize];
-                    basis.read_exact(&mut buffer)?;
-                    output.write_all(&buffer)?;
-                    hasher.update(&buffer);
+                    // Copy in bounded chunks: `len` comes from the delta and
+                    // may be up to 4 GiB, which must not size one allocation.
+                    let mut remaining = *len as usize;
+                    let mut buffer = vec![0u8; remaining.min(self.config.buffer_size.max(1))];
+                    while remaining > 0 {
+                        let n = remaining.min(buffer.len());
+                        basis.read_exact(&mut buffer[..n])?;
+                        output.write_all(&buffer[..n])?;
+                        hasher.update(&buffer[..n]);
+                        remaining -= n;
+                    }
                     bytes_written += u64::from(*len);
                 }
                 DeltaOp::Literal(data) => {
